@@ -537,7 +537,7 @@ Lemma render_Z_inj : forall a b, render_Z a = render_Z b -> a = b.
 Proof.
   assert (Hm : forall p x, render_N (Npos p) = 45%N :: x -> False).
   { intros p x H. pose proof (render_N_digits (Npos p)) as D. rewrite H in D. inversion D as [|? ? Hd _]. unfold is_digit in Hd. lia. }
-  intros [|p|p] [|q|q]; cbn; intros H; try reflexivity.
+  intros [|p|p] [|q|q]; unfold render_Z; intros H; try reflexivity.
   - apply render_N_inj in H. discriminate.
   - exfalso. exact (Hm _ _ H).
   - apply render_N_inj in H. discriminate.
